@@ -351,6 +351,21 @@ pub fn check_tid(ctx: &mut Ctx, x: u128) {
             derived.push(("write_into", b2.write_into(&mut dest).ok().and_then(|n| rd(dest[..n].to_vec()))));
             derived.push(("into_owned", rd(Message::builder(mt, t).into_owned().build())));
             derived.push(("clone", rd(b2.clone().build())));
+            // a copy made into a builder that already exists (another id, another type, attributes of
+            // its own, sealed): `Clone::clone_from`, directly and through containers that forward to it
+            let other = TransactionId::from(!x ^ 0x5555_aaaa_5555_aaaa_5555_aaaa);
+            let mut scratch = Message::builder(MessageType::from_class_method(MessageClass::Error, 0xabc), other);
+            let _ = scratch.add_fingerprint();
+            scratch.clone_from(&b2);
+            let sid: u128 = scratch.transaction_id().into();
+            derived.push(("clone_from", if sid == low { rd(scratch.build()) } else { Some((sid, 0xff, 0)) }));
+            let mut some = Some(Message::builder(MessageType::from_class_method(MessageClass::Indication, 2), other));
+            some.clone_from(&Some(b2.clone()));
+            derived.push(("Option::clone_from", rd(some.unwrap().build())));
+            let mut v = vec![Message::builder(MessageType::from_class_method(MessageClass::Success, 0x7ff), other)];
+            v.clone_from(&vec![b2.clone()]);
+            let mut dest = vec![0x3Cu8; 20];
+            derived.push(("Vec::clone_from", v[0].write_into(&mut dest).ok().and_then(|n| rd(dest[..n].to_vec()))));
         }
         (back, btid, bytes, parsed, hdr, derived)
     });
